@@ -38,6 +38,8 @@ def verify(chk, name, function, run, post, clause=None, replay=None, encoding="q
             continue
         npaths += 1
         chk.definedness_obligations(tag, pr, function, clause, replay, skip=skip_defs)
+        for q, (lname, lf, lassum, lpc) in enumerate(getattr(pr.ctx, "lemmas", [])):
+            chk.add("%s.lemma.%d[%s]" % (tag, q, lname), list(lassum) + list(lpc), lf, function, "lemma", clause, replay, kind="lemma")
         if frame:
             chk.frame_obligations(tag, pr, function, clause, replay)
         try:
